@@ -4,6 +4,8 @@ import (
 	"bytes"
 	"context"
 	"fmt"
+	"os"
+	"path/filepath"
 	"regexp"
 	"sort"
 	"strings"
@@ -62,7 +64,7 @@ func c16Names(thorough bool) []string {
 
 func C16(r *ck.Run) {
 	requireInstrumented()
-	r.Rule("(a) every string of length <= 4 over {a,z,A,0,9,'.','-','_'} plus boundary lengths and shaped names through IsValidBucketName and (stride) through PUT /name, against the S3 naming predicate; (b) CreateBucket on every existing-bucket state (written to, or configured but never written to) × creator × headers, and ListBuckets over every population of <= 4 buckets of 3 owners (two of whose access keys differ in letter case only) × prefix × max-buckets × token walk for user and admin callers; (c) ACL documents (one grantee in several grants, the owner's own grant, written back as read) read back before and after a restart, a deleted bucket re-created under another owner on every metadata store (no setting survives), DELETE / PUT with every bucket sub-resource the gateway does not implement (bucket and settings stay), and breadth-first search over put/get/delete of every bucket setting (tags, policy, ACL, ownership controls, versioning, lock configuration) with restarts, read back after every step, and DeleteBucket on every non-empty state; (d) every interleaving with bounded preemptions of DeleteBucket against PutObject / nested PutObject / CreateMultipartUpload / UploadPart / CompleteMultipartUpload / CreateBucket / PutBucketTagging on real posix backends; distinct = distinct name / population+query / state / schedule")
+	r.Rule("(a) every string of length <= 4 over {a,z,A,0,9,'.','-','_'} plus boundary lengths and shaped names through IsValidBucketName and (stride) through PUT /name, against the S3 naming predicate; (b) CreateBucket on every existing-bucket state (written to, configured but never written to, or a directory that did not come into being through the gateway) × creator × headers, and ListBuckets over every population of <= 4 buckets of 3 owners (two of whose access keys differ in letter case only) × prefix × max-buckets × token walk for user and admin callers; (c) ACL documents (one grantee in several grants, the owner's own grant, written back as read) read back before and after a restart, a deleted bucket re-created under another owner on every metadata store (no setting survives), DELETE / PUT with every bucket sub-resource the gateway does not implement (bucket and settings stay), and breadth-first search over put/get/delete of every bucket setting (tags, policy, ACL, ownership controls, versioning, lock configuration) with restarts, read back after every step, and DeleteBucket on every non-empty state; (d) every interleaving with bounded preemptions of DeleteBucket against PutObject / nested PutObject / CreateMultipartUpload / UploadPart / CompleteMultipartUpload / CreateBucket / PutBucketTagging on real posix backends; distinct = distinct name / population+query / state / schedule")
 	r.Assume("reserved bucket-name prefixes and suffixes (xn--, -s3alias, ...) may be accepted or refused; single syscalls are atomic; (d) runs at the backend seam (the ACL lookup of the HTTP layer is not part of the interleaving)")
 	names := c16Names(r.Thorough())
 	r.Sharded(16, func() {
@@ -149,13 +151,21 @@ func c16CreateExisting(r *ck.Run) {
 			Must(w.F.Do(gw.Root, "PATCH", "/change-bucket-owner", gw.Q("bucket", "bk-fresh", "owner", "usr2"), nil, nil), "chown fresh")
 			Must(w.F.Do(gw.Root, "PUT", "/bk-fresh", "tagging", nil, []byte("<Tagging><TagSet><Tag><Key>k</Key><Value>v</Value></Tag></TagSet></Tagging>")), "tag fresh")
 			Must(w.F.Do(gw.Root, "PUT", "/bk-fresh", "acl", H("x-amz-grant-read", "usr3"), nil), "acl fresh")
+			// a directory that did not come into being through the gateway (copied in, restored without attributes): it
+			// has no owner record, and creating "it" must not hand its content to the caller
+			if err := os.MkdirAll(filepath.Join(w.F.G.Root, "bk-legacy", "sub"), 0o755); err != nil {
+				ck.Fatal("legacy dir: %v", err)
+			}
+			if err := os.WriteFile(filepath.Join(w.F.G.Root, "bk-legacy", "sub", "payroll.csv"), []byte(canaryOther+" legacy"), 0o644); err != nil {
+				ck.Fatal("legacy file: %v", err)
+			}
 			return w
 		}
 		w := mk()
 		base := w.F.G.Snapshot(gw.SnapOpts{})
 		for _, c := range []gw.Creds{gw.Root, cAdm, cUp, cUsr1, cUsr2} {
 			for _, h := range [][]string{nil, {"x-amz-acl", "public-read"}, {"x-amz-object-ownership", "BucketOwnerPreferred"}, {"x-amz-bucket-object-lock-enabled", "true"}, {"x-amz-grant-full-control", "usr2"}} {
-				for _, b := range []string{w.Bucket, w.Other, "bk-fresh"} {
+				for _, b := range []string{w.Bucket, w.Other, "bk-fresh", "bk-legacy"} {
 					resp := w.F.CreateBucket(c, b, h...)
 					r.Add("evaluations", 1)
 					r.Distinct(fmt.Sprintf("create-existing|%v|%s|%v|%s", cfg.Versioning, c.Access, h, b))
@@ -429,10 +439,10 @@ func c16Recreate(r *ck.Run) {
 			Must(f.CreateBucket(gw.Root, "reb", "x-amz-bucket-object-lock-enabled", "true", "x-amz-object-ownership", "BucketOwnerPreferred"), "create")
 			Must(f.Do(gw.Root, "PATCH", "/change-bucket-owner", gw.Q("bucket", "reb", "owner", "usr1"), nil, nil), "chown")
 			written := map[string]string{
-				"tagging":           "<Tagging><TagSet><Tag><Key>owner</Key><Value>first</Value></Tag></TagSet></Tagging>",
-				"policy":            `{"Statement":[{"Effect":"Allow","Principal":"usr3","Action":"s3:*","Resource":["arn:aws:s3:::reb","arn:aws:s3:::reb/*"]}]}`,
-				"object-lock":       "<ObjectLockConfiguration><ObjectLockEnabled>Enabled</ObjectLockEnabled><Rule><DefaultRetention><Mode>COMPLIANCE</Mode><Days>30</Days></DefaultRetention></Rule></ObjectLockConfiguration>",
-				"cors":              "<CORSConfiguration><CORSRule><AllowedOrigin>http://first.example</AllowedOrigin><AllowedMethod>GET</AllowedMethod></CORSRule></CORSConfiguration>",
+				"tagging":     "<Tagging><TagSet><Tag><Key>owner</Key><Value>first</Value></Tag></TagSet></Tagging>",
+				"policy":      `{"Statement":[{"Effect":"Allow","Principal":"usr3","Action":"s3:*","Resource":["arn:aws:s3:::reb","arn:aws:s3:::reb/*"]}]}`,
+				"object-lock": "<ObjectLockConfiguration><ObjectLockEnabled>Enabled</ObjectLockEnabled><Rule><DefaultRetention><Mode>COMPLIANCE</Mode><Days>30</Days></DefaultRetention></Rule></ObjectLockConfiguration>",
+				"cors":        "<CORSConfiguration><CORSRule><AllowedOrigin>http://first.example</AllowedOrigin><AllowedMethod>GET</AllowedMethod></CORSRule></CORSConfiguration>",
 			}
 			store := "xattr"
 			if cfg.Sidecar {
